@@ -53,4 +53,29 @@ PROPS = {
         "guards": ["must-reject", "must-accept", "api-pull", "api-worker", "api-admin", "config-with-empty-allowlist"],
         "parts": [{"engine": "front", "test": "TestProp_C11_Authz", "quick": 3000, "thorough": 300000}],
     },
+    "C07": {
+        "rule": "body bytes (ramps over 0x00-0xFF, NULs, invalid UTF-8, CR/LF text; sizes 0,1,..,max_body-1,max_body,max_body+1 with generated max_body "
+                "1 B-64 KiB) and 0-8 header fields from a pool mixing case variants of one name, repeated values, the three sensitive names in several "
+                "casings, long/UTF-8/tab/padded values; accepted through the real ingress handler or Admin publish (payload_b64), stored on memory or "
+                "SQLite, delivered through pull HTTP (base64), Worker gRPC methods or the real PushDispatcher+HTTPDeliverer into a recording "
+                "RoundTripper, with 0-3 redeliveries (nack / 503) in between; round-trip oracle on payload bytes and an independent header expectation; "
+                "non-trivial = (body has a byte >=0x80 or 0x00, or size within 1 of max_body, or a repeated/sensitive header) and >=1 redelivery",
+        "assumptions": [SAMPLED, POSTGRES, "handlers are invoked in-process: the header map is what a net/http server would present for the generated field list; "
+                        "restart fidelity is covered by C01; real gRPC wire encoding is not exercised"],
+        "guards": ["mode-pull", "mode-worker", "mode-push", "via-ingress", "via-publish", "over-max-body", "redelivered"],
+        "parts": [{"engine": "front", "test": "TestProp_C07_Fidelity", "quick": 1200, "thorough": 60000, "shards": {"quick": 8}}],
+    },
+    "C12": {
+        "rule": "ingress/publish tier: configs with max_depth 1-6, both drop policies, 1-3 routes with 0-3 deliver targets (fan-out), small max_body / "
+                "max_headers; sequences of ingress POSTs (body and header bytes at limit-1/limit/limit+1), publish batches around the remaining capacity "
+                "(incl. an id already queued), leases and acks; oracle on status vs active count, fan-out prefix rule, eviction accounting, refusals leave "
+                "the queue unchanged | rate tier: arrival sequences (gaps 0,1ns,..,10s; 1-16 concurrent callers per instant) against the real ingress "
+                "handler with the injected clock, global vs route-override limiter compiled from text (rps incl. fractional, huge, nan, inf); for every "
+                "pair of admitted arrivals of one limiter #admitted in the window <= burst + rps*window; non-trivial = a refusal/eviction with a leased "
+                "message present, a straddling batch, a size exactly one above a limit, or >=burst+1 arrivals / a 429",
+        "assumptions": [SAMPLED, "rate windows spanning a reload are not generated (excluded by the statement)"],
+        "guards": ["202", "503", "413", "429", "evicted", "fanout-partial"],
+        "parts": [{"engine": "front", "test": "TestProp_C12_Ingress", "quick": 2500, "thorough": 200000},
+                  {"engine": "front", "test": "TestProp_C12_RateLimit", "quick": 2500, "thorough": 200000}],
+    },
 }
